@@ -764,4 +764,11 @@ def rule_k(ctx: Ctx) -> None:
     ctx.explain('C11.k: handler coverage (OverflowError through the built-in hierarchy) of every float-converting probe applied to the validated value in the __call__ of a facet.')
 
 
-RULES = [rule_a, rule_b, rule_c, rule_d, rule_e, rule_f, rule_g, rule_h, rule_i, rule_j, rule_k]
+def rule_l(ctx: Ctx) -> None:
+    """Lax mode never raises for invalid content: every report is made in the mode of the running call (the `validation` parameter), not in
+    the mode the schema component was built with (`self.validation`, 'strict' by default) - C04.b body."""
+    from .c04 import rule_b as caller_mode_reports
+    caller_mode_reports(ctx, 'C11.l')
+
+
+RULES = [rule_a, rule_b, rule_c, rule_d, rule_e, rule_f, rule_g, rule_h, rule_i, rule_j, rule_k, rule_l]
